@@ -317,9 +317,16 @@ def find_irrelevant_type(etype: tp.Type, types: List[tp.Type],
 
     if isinstance(etype, tp.TypeParameter):
         if etype.bound is None or etype.bound == factory.get_any_type():
-            return choose_type(types, only_regular=True)
+            # The top type is a supertype of every type variable.
+            return choose_type(
+                [t for t in types if _cls2type(t) != factory.get_any_type()],
+                only_regular=True)
         else:
             etype = etype.bound
+
+    if etype.is_primitive() and hasattr(etype, 'box_type'):
+        # A primitive type is assignable to the supertypes of its boxed type.
+        etype = etype.box_type()
 
     types = [_cls2type(t) for t in types]
     supertypes = find_supertypes(etype, types, include_self=True,
@@ -334,7 +341,18 @@ def find_irrelevant_type(etype: tp.Type, types: List[tp.Type],
         for t in relevant_types
         if isinstance(t, tp.ParameterizedType)
     }
-    available_types = [t for t in types if t not in relevant_types]
+    if isinstance(etype, tp.ParameterizedType):
+        # The type arguments of the given type itself must not be replaced
+        # by those of another relevant instantiation of its constructor.
+        type_args_map[etype.name] = etype.type_args
+    # The top type is a supertype of every type, and every instantiation of
+    # a type constructor that is itself a subtype of the given type (e.g.,
+    # class Bar<T> : Foo) is a subtype of the given type.
+    available_types = [
+        t for t in types
+        if t not in relevant_types and t != factory.get_any_type() and
+        not (t.is_type_constructor() and t.is_subtype(etype))
+    ]
     if not available_types:
         return None
     t = utils.random.choice(available_types)
